@@ -378,7 +378,10 @@ def extract_comment_on_columns(expression: exp.Expression) -> exp.Expression:
             else:
                 new_actions.append(a)
         if not new_actions:
+            table = expression.this
             expression = SUCCESS_NOP.copy()
+            # the engine won't see the table, so it is checked separately
+            expression.args["col_comments_table"] = table
         else:
             expression.set("actions", new_actions)
         expression.args["col_comments"] = col_comments
